@@ -79,6 +79,12 @@ theorem C06_trivia (eol : List Char) (t : List Trivia.Triv) (h : TriviaIdem.FixT
     Trivia.load eol .leading (TriviaIdem.relex (Trivia.load eol .leading t)) = Trivia.load eol .leading t :=
   TriviaIdem.load_idem eol t h
 
+/-- **trailing trivia** likewise: the comments behind a token, with the single blank a block comment gets, come out
+of a second pass unchanged -/
+theorem C06_trivia_trailing (eol : List Char) (t : List Trivia.Triv) (h : TriviaIdem.FixTexts eol t) :
+    Trivia.load eol .trailing (TriviaIdem.relex (Trivia.load eol .trailing t)) = Trivia.load eol .trailing t :=
+  TriviaIdem.load_trailing_idem eol t h
+
 example : TriviaIdem.FixTexts ['\n'] [.ws true, .ws true, .ws true, .comment .line ['c'], .ws true, .ws true,
       .comment (.block 0) ['b'], .ws false] ∧
     Trivia.load ['\n'] .leading [.ws true, .ws true, .ws true, .comment .line ['c'], .ws true, .ws true,
